@@ -90,6 +90,15 @@ func (in *Interp) nilOf(v Value) (bdd.Node, bool) {
 // ModelFunc models an external function (st is the state current at the call).
 type ModelFunc func(in *Interp, args []Value, guard bdd.Node, st *State, pos string) (Value, bool)
 
+// deferRec is one registered deferred call.
+type deferRec struct {
+	name     string
+	guard    bdd.Node // path predicate at registration
+	fn       *ssa.Function
+	bindings []Value
+	args     []Value
+}
+
 // CarriedLoc names a store location (with its type) to generalise at a loop header.
 type CarriedLoc struct {
 	Key  string
@@ -561,7 +570,7 @@ type retRec struct {
 type frame struct {
 	fn     *ssa.Function
 	vals   map[ssa.Value]Value
-	defers []string
+	defers []deferRec
 }
 
 var rpoCache sync.Map // *ssa.Function -> []*ssa.BasicBlock
@@ -1153,16 +1162,52 @@ func (in *Interp) exec(fr *frame, instr ssa.Instruction, pred bdd.Node, st *Stat
 		}
 		in.OnGo(in, fv, args, pred, st, in.P.Pos(x.Pos()))
 	case *ssa.Defer:
-		name := "func value"
+		d := deferRec{name: "func value", guard: pred}
 		if f := x.Call.StaticCallee(); f != nil {
-			name = f.String()
+			d.name = f.String()
+			if load.InModule(f) && f.Blocks != nil && !x.Call.IsInvoke() {
+				// a function of the module: interpreted when the deferred calls run
+				// (arguments and closure bindings are evaluated now, as Go does)
+				d.fn = f
+				if mc, ok := x.Call.Value.(*ssa.MakeClosure); ok {
+					if fv, ok := in.operand(fr, mc).(*FuncV); ok {
+						d.bindings = fv.Bindings
+					}
+				}
+				for _, a := range x.Call.Args {
+					d.args = append(d.args, in.operand(fr, a))
+				}
+			}
 		} else if o, ok := in.operand(fr, x.Call.Value).(*Opaque); ok {
-			name = o.Why
+			d.name = o.Why
+		} else if fv, ok := in.operand(fr, x.Call.Value).(*FuncV); ok && fv.Fn != nil && load.InModule(fv.Fn) && fv.Fn.Blocks != nil {
+			d.name, d.fn, d.bindings = fv.Fn.String(), fv.Fn, fv.Bindings
+			for _, a := range x.Call.Args {
+				d.args = append(d.args, in.operand(fr, a))
+			}
 		}
-		fr.defers = append(fr.defers, name)
+		fr.defers = append(fr.defers, d)
 	case *ssa.RunDefers:
 		for i := len(fr.defers) - 1; i >= 0; i-- {
-			in.T.Emit(pred, "deferred:"+fr.defers[i], "", nil, 0, in.P.Pos(x.Pos()))
+			d := fr.defers[i]
+			g := in.C.M.And(pred, d.guard)
+			if g == bdd.False {
+				continue
+			}
+			in.T.Emit(g, "deferred:"+d.name, "", nil, 0, in.P.Pos(x.Pos()))
+			if d.fn != nil {
+				// the deferred function's effects (e.g. on named results) take place
+				// before the function returns; on the paths that did not register it
+				// the state is kept
+				_, out := in.callBound(d.fn, d.args, d.bindings, g, st.Clone(), x.Pos())
+				if g == pred {
+					*st = *out
+				} else {
+					_, cur := in.mergeStates([]inEdge{{nil, g, out}, {nil, in.C.M.And(pred, in.C.M.Not(d.guard)), st.Clone()}})
+					*st = *cur
+				}
+				in.curPred = pred
+			}
 		}
 	case *ssa.MakeSlice:
 		lv, ok := in.operand(fr, x.Len).(dom.BV)
@@ -1601,6 +1646,10 @@ func (in *Interp) binop(fr *frame, x *ssa.BinOp) Value {
 			case isNilConst(x.X):
 				n = in.isNil(b, x.Pos())
 			default:
+				if eq, ok := in.ifaceEq(a, b); ok {
+					n = eq
+					break
+				}
 				in.undecided(x.Pos(), "comparison of %T and %T", a, b)
 			}
 			if x.Op == token.NEQ {
@@ -1751,6 +1800,9 @@ func (in *Interp) callInstr(fr *frame, x *ssa.Call, pred bdd.Node, st *State) Va
 					return in.C.Zext(in.C.Atom("len("+s.Sym+")", w-1), w)
 				}
 			}
+		case "recover":
+			// no panic is in flight on the paths summarised (panics are C12's subject)
+			return &Iface{Nil: bdd.True}
 		case "clear":
 			if m, ok := args[0].(*Map); ok && m.Sym != "" {
 				in.T.Emit(pred, "map.clear", m.Sym, nil, 0, pos)
@@ -2319,4 +2371,38 @@ func (in *Interp) callAlternatives(mv *MuxV, args []Value, pred bdd.Node, st *St
 	*st = *cur
 	in.curPred = pred
 	return res, true
+}
+
+// ifaceEq compares two interface values that are nil or named symbolic values
+// (error variables and results): equal when both are nil, or both are non-nil
+// and carry the same symbol; two different symbols are related by an atom of
+// their own (unknown).
+func (in *Interp) ifaceEq(a, b Value) (bdd.Node, bool) {
+	M := in.C.M
+	if ma, ok := a.(*MuxV); ok {
+		l, ok1 := in.ifaceEq(ma.A, b)
+		r, ok2 := in.ifaceEq(ma.B, b)
+		return M.Ite(ma.P, l, r), ok1 && ok2
+	}
+	if mb, ok := b.(*MuxV); ok {
+		l, ok1 := in.ifaceEq(a, mb.A)
+		r, ok2 := in.ifaceEq(a, mb.B)
+		return M.Ite(mb.P, l, r), ok1 && ok2
+	}
+	ia, ok1 := a.(*Iface)
+	ib, ok2 := b.(*Iface)
+	if !ok1 || !ok2 || (ia.Sym == "" && ia.Nil != bdd.True) || (ib.Sym == "" && ib.Nil != bdd.True) {
+		return bdd.False, false
+	}
+	bothNil := M.And(ia.Nil, ib.Nil)
+	noneNil := M.And(M.Not(ia.Nil), M.Not(ib.Nil))
+	same := bdd.True
+	if ia.Sym != ib.Sym {
+		x, y := ia.Sym, ib.Sym
+		if x > y {
+			x, y = y, x
+		}
+		same = in.C.Atom("eq("+x+","+y+")", 1)[0]
+	}
+	return M.Or(bothNil, M.And(noneNil, same)), true
 }
